@@ -228,16 +228,20 @@ def BState.addFunction (s : BState) (name : String) : BState × Bool :=
 /-- `template_t::add_location` (the duplicate check result is returned; the object is added in any case);
     `loc.nr = locations.size() - 1` -/
 def BState.addLocation (s : BState) (t : Nat) (name : String) (hasInv hasEr : Bool) : BState × Bool :=
-  let fr := s.declFrame (.templ t)
-  let dup := s.frameContains fr name
-  let (s1, sid) := s.addSymbol fr name (.location false false) (some (.loc s.doc.locs.length))
-  ({ s1 with doc := { s1.doc with locs := s1.doc.locs ++ [⟨sid, t, (s.doc.locs.filter (·.templ = t)).length, hasInv, hasEr⟩] } }, dup)
+  match s.doc.templates[t]? with
+  | none => (s, false)        -- (null currentTemplate in the C++)
+  | some T =>
+    let dup := s.frameContains T.frame name
+    let (s1, sid) := s.addSymbol T.frame name (.location false false) (some (.loc s.doc.locs.length))
+    ({ s1 with doc := { s1.doc with locs := s1.doc.locs ++ [⟨sid, t, (s.doc.locs.filter (·.templ = t)).length, hasInv, hasEr⟩] } }, dup)
 
 def BState.addBranchpoint (s : BState) (t : Nat) (name : String) : BState × Bool :=
-  let fr := s.declFrame (.templ t)
-  let dup := s.frameContains fr name
-  let (s1, sid) := s.addSymbol fr name .branchpoint (some (.bp s.doc.bps.length))
-  ({ s1 with doc := { s1.doc with bps := s1.doc.bps ++ [⟨sid, t, (s.doc.bps.filter (·.templ = t)).length⟩] } }, dup)
+  match s.doc.templates[t]? with
+  | none => (s, false)
+  | some T =>
+    let dup := s.frameContains T.frame name
+    let (s1, sid) := s.addSymbol T.frame name .branchpoint (some (.bp s.doc.bps.length))
+    ({ s1 with doc := { s1.doc with bps := s1.doc.bps ++ [⟨sid, t, (s.doc.bps.filter (·.templ = t)).length⟩] } }, dup)
 
 /-- `template_t::add_edge(src, dst, control, actname)`; `nr = edges.empty() ? 0 : edges.back().nr + 1` -/
 def mkEdge (edges : List Edge) (fsym tsym : Symbol) (control : Bool) (select : FrameId) (g a p : Expr) : Edge :=
